@@ -30,6 +30,7 @@
 (*               is <<"i", "", key>> (ItemSpace) or <<"c", name, <<>>>>    *)
 (* Op  == <<"const", v>> | <<"call", namepath, args, spelling>>            *)
 (*      | <<"read", namepath>> | <<"raise", e>> | <<"none">>               *)
+(*      | <<"raiseif", k, e>>   (raise e when the first argument is k)      *)
 (* arg == <<"k", i>> | <<"dec", i>> (call skipped when key[i] <= 0)        *)
 (*      | <<"c", v>>                                                       *)
 (***************************************************************************)
@@ -353,6 +354,9 @@ RECURSIVE Den(_, _), EvOps(_, _, _, _, _, _)
 EvOp(D, ctx, key, op) ==
     CASE op[1] = "const" -> op[2]
       [] op[1] = "raise" -> ErrRaise(op[2])
+      \* <<"raiseif", k, e>>: the formula raises only for the arguments whose first
+      \* component is k (a failure that depends on the arguments)
+      [] op[1] = "raiseif" -> IF Len(key) > 0 /\ key[1] = op[2] THEN ErrRaise(op[3]) ELSE 0
       [] op[1] = "none"  -> RetNoneMark
       [] op[1] = "read"  ->
             LET o == Resolve(D, ctx, op[2]) IN
